@@ -186,6 +186,13 @@ Definition set_subs (s : gstate) subs merge msize : gstate :=
 Definition rec_append (r : list (list label)) (l : label) : list (list label) :=
   match r with [] => [[l]] | f :: t => (f ++ [l]) :: t end.
 
+(* the stream hook (customizeHookSessionContext): created at addIn, OnMsg for every
+   non-empty message, OnStop in delIn.  One entry per input, newest first. *)
+Definition hook_msg (hk : list (list nat * nat)) (i : nat) : list (list nat * nat) :=
+  match hk with [] => [] | (ms, st) :: t => (ms ++ [i], st) :: t end.
+Definition hook_stop (hk : list (list nat * nat)) : list (list nat * nat) :=
+  match hk with [] => [] | (ms, st) :: t => (ms, S st) :: t end.
+
 Definition publish (c : cfg) (s : gstate) (m : rmsg) : gstate :=
   let i := g_next s in
   let bump (s' : gstate) :=
@@ -228,7 +235,8 @@ Definition publish (c : cfg) (s : gstate) (m : rmsg) : gstate :=
     {| g_next := S i; g_next_ts := g_next_ts s; g_next_pat := g_next_pat s;
        g_rtmp_cache := rc; g_flv_cache := fc; g_ts_cache := g_ts_cache s;
        g_patpmt := g_patpmt s; g_sdp := g_sdp s; g_next_sdp := g_next_sdp s; g_merge := merge2; g_merge_size := msize2; g_video_known := vk;
-       g_subs := subs4; g_gone := g_gone s; g_rec_open := g_rec_open s; g_rec := rec'; g_in := g_in s; g_next_rtp := g_next_rtp s; g_vcodec := g_vcodec s; g_hook := g_hook s; g_trec := g_trec s |}.
+       g_subs := subs4; g_gone := g_gone s; g_rec_open := g_rec_open s; g_rec := rec'; g_in := g_in s; g_next_rtp := g_next_rtp s; g_vcodec := g_vcodec s;
+       g_hook := if g_in s && cf_hook c then hook_msg (g_hook s) i else g_hook s; g_trec := g_trec s |}.
 
 Definition ts_step (cache : gop_cache label) (pat : option label) (boundary : bool) (lt : label) (c : consumer) : consumer :=
   if negb (ckind_eqb (c_kind c) KTs) then c
@@ -336,7 +344,8 @@ Definition step (c : cfg) (s : gstate) (e : ev) : gstate :=
          g_patpmt := g_patpmt s; g_sdp := g_sdp s; g_next_sdp := g_next_sdp s; g_merge := g_merge s; g_merge_size := g_merge_size s;
          g_video_known := g_video_known s; g_subs := g_subs s; g_gone := g_gone s;
          g_rec_open := cf_record_flv c;
-         g_rec := if cf_record_flv c then [] :: g_rec s else g_rec s; g_in := true; g_next_rtp := g_next_rtp s; g_vcodec := g_vcodec s; g_hook := g_hook s; g_trec := g_trec s |}
+         g_rec := if cf_record_flv c then [] :: g_rec s else g_rec s; g_in := true; g_next_rtp := g_next_rtp s; g_vcodec := g_vcodec s;
+         g_hook := if cf_hook c then ([], 0%nat) :: g_hook s else g_hook s; g_trec := g_trec s |}
   | EvInStop =>
       if negb (g_in s) then s else
       (* delIn: push sessions disposed and forgotten, recording closed, caches
@@ -347,7 +356,8 @@ Definition step (c : cfg) (s : gstate) (e : ev) : gstate :=
          g_ts_cache := gc_clear (g_ts_cache s);
          g_patpmt := None; g_sdp := None; g_next_sdp := g_next_sdp s; g_merge := g_merge s; g_merge_size := g_merge_size s;
          g_video_known := false; g_subs := stay; g_gone := g_gone s ++ pushes;
-         g_rec_open := false; g_rec := g_rec s; g_in := false; g_next_rtp := g_next_rtp s; g_vcodec := VOther; g_hook := g_hook s; g_trec := g_trec s |}
+         g_rec_open := false; g_rec := g_rec s; g_in := false; g_next_rtp := g_next_rtp s; g_vcodec := VOther;
+         g_hook := if cf_hook c then hook_stop (g_hook s) else g_hook s; g_trec := g_trec s |}
   | EvTs boundary => feed_ts c s boundary
   | EvPatPmt =>
       let k := g_next_pat s in
